@@ -23,7 +23,7 @@ SPEC = {
                     "vlib/refeval.py reading of the documented source semantics", "vlib/avm.py control/stack/scratch/frame semantics"],
     "min_evaluations": {"quick": 8000, "thorough": 100000},
     "must_reach": ["agree_approve", "agree_reject", "agree_fail", "mode_sig", "mode_app", "skeleton_cases", "loops_iterated_2plus", "object_compiled_twice"],
-    "shard_timeout": {"quick": 600, "thorough": 7200},
+    "shard_timeout": {"quick": 2400, "thorough": 14400},
 }
 
 
